@@ -11,6 +11,10 @@ json.dump(d, open(p, "w"), indent=1, sort_keys=True)
 root = os.path.join(ROOT, "lean", "SqlglotModel.lean")
 lines = ["-- Root of the `SqlglotModel` library: every property file (and through them every model and proof file)."]
 lines += [f"import SqlglotModel.Properties.{k}" for k in sorted(d)]
+# property files beyond one-per-property (kept in the root so a plain `lake build` checks them too)
+lines += [f"import SqlglotModel.Properties.{os.path.basename(f)[:-5]}"
+          for f in sorted(__import__("glob").glob(os.path.join(ROOT, "lean", "SqlglotModel", "Properties", "*.lean")))
+          if os.path.basename(f)[:-5] not in d]
 open(root, "w").write("\n".join(lines) + "\n")
 from vf import gen_manifest
 gen_manifest.CLAIMED = {k: (v["technique"], v["text"], v["note"], v["ref"]) for k, v in d.items()}
